@@ -345,7 +345,7 @@ func TestC20a(t *testing.T) {
 	core.Run(t, core.Spec[CaseA]{
 		Property: "C20", Sub: "a",
 		Rule: "source files written from the grammar (all main-mode token kinds, # // /* */ comments, quoted templates and <<X / <<-X heredocs with interpolations, if/for directives and ~ markers, blocks with 0-2 quoted or bare labels, one-line blocks, odd spacing, tabs, blank lines, LF or CRLF, with or without final newline) or noisy renderings of schema instances (C19 renderer, with dynamic blocks); sources that hclsyntax rejects are skipped and counted. Oracle P1: token stream of hclwrite.ParseConfig's tree == source with the space/tab runs between scanner tokens turned into spaces, File.Bytes()==Format(src); P2: Format keeps every token (type, bytes), leaves only spaces between tokens, is idempotent, output parses to the same tree (ranges ignored) and every attribute evaluates to the same value. Non-trivial: the file has a heredoc, a comment or a template sequence; distinct = (origin, heredoc, comment, template, CRLF, missing final newline, hash of token-feature set mod 16)",
-		Gen:   genA, Check: checkA, Classify: classifyA,
+		Gen:  genA, Check: checkA, Classify: classifyA,
 		Assumptions: []string{
 			"hclsyntax.ParseConfig decides what a syntactically valid file is; hclsyntax.LexConfig token ranges decide what lies between tokens",
 			"a leading UTF-8 BOM is not generated (not a token kind; covered by C17)",
